@@ -48,6 +48,9 @@
 (*   asyncsync async<T> that completes inside the constructor              *)
 (*   setval / setexc   shared_future::set_value / set_exception: already   *)
 (*             resolved, the tracer must not be wired     sh_f.h:120-127   *)
+(*   factthrow shared_future(Fn) with Fn THROWING: future::result_of stores  *)
+(*             the exception (future.h:296-305): resolved, tracer not      *)
+(*             wired                                                       *)
 (*   late      default constructed, then get_promise(): init_if_needed +   *)
 (*             get_promise of the future + charge         sh_f.h:130-145   *)
 (*   init      default constructed, init_if_needed() called explicitly     *)
@@ -73,8 +76,12 @@
 (* Rounds.  A resolved shared state may be re-armed (round k -> k+1, up to   *)
 (* MaxRounds) in the ways the code allows on an existing state:            *)
 (*   ReArmShl     `f << fn` through any handle, fn returning a pending     *)
-(*                future<T> (kind val/exc/drop/dtor) or a ready one        *)
-(*                ("ready"): result_of destroys the stored result and      *)
+(*                future<T> (kind val/exc/drop/dtor/unwind) or a ready one *)
+(*                ("ready" value, "readyexc" exception, "readynone" no     *)
+(*                value) or THROWING ("throws": result_of's catch path     *)
+(*                stores the exception, future.h:301-304; the previous     *)
+(*                content has been destroyed exactly once before the       *)
+(*                factory ran): result_of destroys the stored result and   *)
 (*                builds the new future in place, every copy shares the    *)
 (*                re-armed state, `if (pending()) charge` wires the tracer *)
 (*                AGAIN                               shared_future.h:197  *)
@@ -124,6 +131,12 @@
 (* blocking forms and co_await dereference the null pointer there and are  *)
 (* not driven.                                                             *)
 (*                                                                         *)
+(* Resolver kind "unwind": the producer takes the promise into a local     *)
+(* (move = claim, future.h:598), fails with an exception before resolving  *)
+(* it, and the local is destroyed by stack unwinding (~promise: load, then *)
+(* resolve as a broken promise, future.h:600-603) -- as "drop" for the     *)
+(* awaiters and the tracer, whatever the handles did before.               *)
+(*                                                                         *)
 (* Variant = "code" is the implementation.  "notracer" (charge takes no    *)
 (* self reference), "noreset" (the tracer never gives it back) and         *)
 (* "chargeonce" (operator<< charges the tracer in the first round only)    *)
@@ -135,13 +148,13 @@ EXTENDS Naturals, Sequences, FiniteSets, TLC
 CONSTANTS H,           \* handle threads (strings)
           Ctor,        \* the thread that constructs the shared_future
           Modes,       \* construction modes explored (see above)
-          RKinds,      \* resolver kinds for the modes with a promise: "val" "exc" "drop" "dtor"
+          RKinds,      \* resolver kinds for the modes with a promise: "val" "exc" "drop" "dtor" "unwind"
           HCo, HBl, HCb, HPoll,   \* threads allowed to co_await / wait() / subscribe a callback / poll
           MaxCopies,   \* bound: number of handle copies made in a behaviour
           MaxHandles,  \* bound: handles held by one thread at a time
           Fixed,       \* TRUE: repaired shared_future::operator<< (see mode shl)
           MaxRounds,   \* bound: rounds (1 = the state is armed once)
-          ReArmWays,   \* subset of {"shl", "shlready", "assign"}
+          ReArmWays,   \* subset of {"shl", "shlready", "shlreadyexc", "shlreadynone", "shlthrows", "assign"}
           BlForms,     \* blocking forms in use: subset of {"wait", "syncval", "fsync", "join", "fwait"}
           FormShift,   \* rotation offset of the form choice
           FreeForms,   \* TRUE: any form of BlForms at every blocking call (multiplies the graph)
@@ -210,7 +223,8 @@ SumF(f) == SumOver(f, DOMAIN f)
 (* std::shared_ptr use count of the control block *)
 Use == tref + tmp + SumF(nh) + SumF(cref)
 
-ReadyModes == {"fnsync", "setval", "setexc", "asyncsync"}
+ReadyModes == {"fnsync", "setval", "setexc", "asyncsync", "factthrow"}
+ReadyKinds == {"ready", "readyexc", "readynone", "throws"}    \* factories of operator<< that leave the state resolved
 ChargeModes == {"fn", "fnsync"}
 StartPc(k) == CASE k = "dtor" -> "pre_dload" [] k = "final" -> "pre_final" [] k = "none" -> "done" [] OTHER -> "pre_claim"
 TrefOn == IF Variant = "notracer" THEN 0 ELSE 1
@@ -218,8 +232,8 @@ RPay == IF round = 1 THEN "r" ELSE "r" \o ToString(round)     \* who stores the 
 
 (* the blocking form of thread h: rotation over the forms in use *)
 ModeIx == [fn |-> 0, retfut |-> 1, late |-> 2, init |-> 3, shl |-> 4,
-           async |-> 0, fnsync |-> 1, asyncsync |-> 2, setval |-> 3, setexc |-> 4, unset |-> 0]
-KindIx == [val |-> 0, exc |-> 1, drop |-> 2, dtor |-> 3, final |-> 1, none |-> 0, unset |-> 0]
+           async |-> 0, fnsync |-> 1, asyncsync |-> 2, setval |-> 3, setexc |-> 4, factthrow |-> 2, unset |-> 0]
+KindIx == [val |-> 0, exc |-> 1, drop |-> 2, dtor |-> 3, unwind |-> 4, final |-> 1, none |-> 0, unset |-> 0]
 FormsInUse == SelectSeq(FormOrder, LAMBDA f : f \in BlForms)
 FormOf(h) == FormsInUse[((ModeIx[mode] + KindIx[rkind] + round + (IF h = Ctor THEN 0 ELSE 1) + FormShift) % Len(FormsInUse)) + 1]
 FormChoice(h) == IF FreeForms THEN BlForms ELSE {FormOf(h)}
@@ -272,8 +286,8 @@ Setup(m, k) ==
     /\ rkind' = k
     /\ st' = IF m = "late" THEN "none" ELSE "alive"
     /\ slot' = IF m \in ReadyModes THEN "ready" ELSE IF m = "init" THEN "inst" ELSE "null"
-    /\ tag' = CASE m \in {"fnsync", "setval", "asyncsync"} -> "val" [] m = "setexc" -> "exc" [] OTHER -> "none"
-    /\ payload' = CASE m = "fnsync" -> "fn" [] m \in {"setval", "setexc"} -> "sv" [] m = "asyncsync" -> "coro" [] OTHER -> "none"
+    /\ tag' = CASE m \in {"fnsync", "setval", "asyncsync"} -> "val" [] m \in {"setexc", "factthrow"} -> "exc" [] OTHER -> "none"
+    /\ payload' = CASE m = "fnsync" -> "fn" [] m \in {"setval", "setexc"} -> "sv" [] m = "asyncsync" -> "coro" [] m = "factthrow" -> "ft" [] OTHER -> "none"
     /\ nh' = [h \in H |-> IF h = Ctor /\ m # "late" THEN 1 ELSE 0]
     (* fn/fnsync: the thread is parked at the CAS of charge(): `_ptr = ptr` already executed *)
     /\ tref' = IF m \in ChargeModes THEN TrefOn ELSE 0
@@ -455,14 +469,15 @@ NewRound ==
 ReArmShl(h, k) ==
     /\ round < MaxRounds /\ Quiescent /\ nh[h] >= 1
     /\ \/ k \in RKinds /\ "shl" \in ReArmWays
-       \/ k = "ready" /\ "shlready" \in ReArmWays
+       \/ k \in ReadyKinds /\ ("shl" \o k) \in ReArmWays
     /\ NewRound
-    /\ vdtor' = vdtor + vlive
-    /\ IF k = "ready"
-         THEN /\ tag' = "val"
-              /\ payload' = "sv" \o ToString(round + 1)
-              /\ vlive' = 1
-              /\ vctor' = vctor + 1
+    /\ vdtor' = vdtor + vlive          \* the previous content is destroyed exactly once (future.h:297)
+    /\ IF k \in ReadyKinds
+         THEN /\ tag' = CASE k = "ready" -> "val" [] k = "readynone" -> "none" [] OTHER -> "exc"
+              /\ payload' = CASE k = "readynone" -> "none" [] k = "throws" -> "ft" \o ToString(round + 1)
+                               [] OTHER -> "sv" \o ToString(round + 1)
+              /\ vlive' = IF k = "ready" THEN 1 ELSE 0
+              /\ vctor' = vctor + (IF k = "ready" THEN 1 ELSE 0)
               /\ rpc' = "done"
               /\ rkind' = "none"
               /\ UNCHANGED slot
@@ -700,8 +715,9 @@ PreClaim(r) ==
 (* future::set: the value is constructed in place / the exception pointer stored (plain stores into the state) *)
 PostClaim(r) ==
     /\ rpc = "post_claim"
-    /\ rpc' = "pre_swap"
-    /\ IF rkind = "drop"
+    (* unwind: the claim was the move into the producer's local; the exception propagates, ~promise of the local *)
+    /\ rpc' = IF rkind = "unwind" THEN "pre_dload" ELSE "pre_swap"
+    /\ IF rkind \in {"drop", "unwind"}
          THEN UNCHANGED <<tag, payload, vlive, vctor, uaf>>
          ELSE /\ tag' = rkind
               /\ payload' = RPay
@@ -777,7 +793,7 @@ HandleStep(h) == \/ Drop(h) \/ BeginPoll(h) \/ BeginCo(h) \/ BeginCb(h) \/ NullP
                  \/ PreFence(h) \/ PostFence(h) \/ PreWait(h) \/ PostWait(h)
                  \/ \E g \in H : Copy(h, g)
                  \/ \E f \in AllForms : BeginWait(h, f)
-                 \/ \E k \in RKinds \cup {"ready"} : ReArmShl(h, k) \/ ReArmAssign(h, k)
+                 \/ \E k \in RKinds \cup ReadyKinds : ReArmShl(h, k) \/ ReArmAssign(h, k)
 
 Next == \/ \E m \in Modes : \E k \in KindsOf(m) : Setup(m, k)
         \/ \E r \in {R} : PreClaim(r) \/ PostClaim(r) \/ PreDload(r) \/ PostDload(r) \/ PreFinal(r)
@@ -787,7 +803,7 @@ Next == \/ \E m \in Modes : \E k \in KindsOf(m) : Setup(m, k)
                         \/ PreFence(h) \/ PostFence(h) \/ PreWait(h) \/ PostWait(h)
         \/ \E h \in H : \E g \in H : Copy(h, g)
         \/ \E h \in H : \E f \in AllForms : BeginWait(h, f)
-        \/ \E h \in H : \E k \in RKinds \cup {"ready"} : ReArmShl(h, k) \/ ReArmAssign(h, k)
+        \/ \E h \in H : \E k \in RKinds \cup ReadyKinds : ReArmShl(h, k) \/ ReArmAssign(h, k)
 
 Fair == /\ WF_vars(\E m \in Modes : \E k \in KindsOf(m) : Setup(m, k))
         /\ WF_vars(ResolverStep(R))
@@ -834,7 +850,7 @@ TracerWhilePending ==
     /\ slot = "inst" => tref = 0
 
 (* construction from an already resolved future never wires the tracer *)
-NotWiredWhenReady == (round = 1 /\ mode \in {"setval", "setexc", "asyncsync"}) => (tref = 0 /\ tmp = 0 /\ nxt[TR] = "null" /\ slot = "ready")
+NotWiredWhenReady == (round = 1 /\ mode \in {"setval", "setexc", "asyncsync", "factthrow"}) => (tref = 0 /\ tmp = 0 /\ nxt[TR] = "null" /\ slot = "ready")
 
 (* the tracer was subscribed first, therefore it is the last node of the chain *)
 RECURSIVE ChainFrom(_, _)
